@@ -166,6 +166,11 @@ def main(argv=None) -> int:
             results.append(r)
     results.sort(key=lambda r: (r["obligation"], r["shard"]))
 
+    fuzz_summary = None
+    if a.tier == "thorough" and getattr(prop, "fuzz", None) and not a.only:
+        fuzz_summary, fuzz_viol = _run_fuzz(prop, seed, sorted(known), a.jobs)
+        replay_found.extend(fuzz_viol)
+
     errors = [r for r in results if r["harness_error"]]
     if errors:
         for r in errors:
@@ -264,6 +269,8 @@ def main(argv=None) -> int:
         "new_violation_signatures": sorted(new),
         "repo_head": head,
     }
+    if fuzz_summary is not None:
+        evidence["coverage"]["fuzz"] = fuzz_summary
     exh = [o.exhaustive_note for o in prop.obligations if o.exhaustive_note]
     if exh:
         evidence["coverage"]["exhaustive_subspaces"] = exh
@@ -274,6 +281,45 @@ def main(argv=None) -> int:
     print(f"{pid} tier={a.tier} seed={seed} evaluations={evaluations} distinct_nontrivial={len(keys)} "
           f"violations={len(new)} known_observed={sum(1 for k in known if excluded.get(k,0))}/{len(known)} wall={wall:.1f}s")
     return rc
+
+
+def _run_fuzz(prop, seed, known, jobs):
+    """atheris (libFuzzer) campaigns over the same run_case, one process per (obligation, shard); budget in runs, not time"""
+    import shutil
+    import tempfile
+
+    tmp = tempfile.mkdtemp(prefix="vpfuzz_")
+    procs = []
+    shards = max(1, min(jobs, 16) // max(1, len(prop.fuzz)))
+    env = dict(os.environ, PYTHONPATH=os.environ.get("VERIF_REPO", "/repo") + ":" + VERIF)
+    for oname in prop.fuzz:
+        for sh in range(shards):
+            out = os.path.join(tmp, f"{oname}_{sh}.json")
+            corpus = os.path.join(tmp, f"corpus_{oname}_{sh}")
+            os.makedirs(corpus)
+            cmd = [sys.executable, "-m", "vp.fuzz", prop.id, oname, "--runs", str(prop.fuzz_runs), "--seed", str(seed * 100 + sh + 1),
+                   "--out", out, "--corpus", corpus, "--known", ",".join(known)]
+            procs.append((oname, sh, out, subprocess.Popen(cmd, cwd=VERIF, env=env, stdout=subprocess.DEVNULL, stderr=subprocess.DEVNULL)))
+    summary = {"engine": "atheris/libFuzzer via hypothesis.fuzz_one_input", "campaigns": 0, "executions": 0, "nontrivial": 0,
+               "status": [], "runs_per_campaign": prop.fuzz_runs}
+    viol = []
+    for oname, sh, out, p in procs:
+        p.wait()
+        try:
+            with open(out) as f:
+                r = json.load(f)
+        except Exception:
+            summary["status"].append(f"{oname}#{sh}: no result (inconclusive)")
+            continue
+        summary["campaigns"] += 1
+        summary["executions"] += r.get("executions", 0)
+        summary["nontrivial"] += r.get("nontrivial", 0)
+        if r.get("status") != "ok":
+            summary["status"].append(f"{oname}#{sh}: {r.get('status')}")
+        if r.get("violation"):
+            viol.append(r["violation"])
+    shutil.rmtree(tmp, ignore_errors=True)
+    return summary, viol
 
 
 def _replay(engine, prop, path, known, tier) -> int:
